@@ -216,6 +216,7 @@ func (ex *Exec) InvParts(db *SymDB, now *Term) []namedTerm {
 				validMap(tt, sc.c(r, "tags").v), validMap(tt, sc.c(r, "promise_param_headers").v), validMap(tt, sc.c(r, "promise_tags").v),
 
 				tt.Implies(tt.Not(sc.c(r, "last_run_time").null), tt.SLt(sc.c(r, "last_run_time").v, sc.c(r, "next_run_time").v)),
+				tt.SLt(sc.c(r, "created_on").v, sc.c(r, "next_run_time").v), tt.SLe(sc.c(r, "created_on").v, now),
 			)))
 		}
 		var bs []*Term
@@ -257,9 +258,28 @@ func allCols(t *Table) []string {
 }
 
 // GParts: the guarantee relating a state to any later state.
-func (ex *Exec) GParts(pre, post *SymDB) []namedTerm {
+func (ex *Exec) GParts(pre, post *SymDB) []namedTerm { return ex.GPartsSince(pre, post, nil) }
+
+// GPartsSince: since (optional) is the tick at which pre was observed; rows that
+// appear later were created by transactions built at or after that tick.
+func (ex *Exec) GPartsSince(pre, post *SymDB, since *Term) []namedTerm {
 	tt := ex.tt
 	var out []namedTerm
+	if since != nil {
+		var cs []*Term
+		for _, name := range []string{"promises", "tasks", "schedules"} {
+			p, q := pre.tabs[name], post.tabs[name]
+			if p == nil || q == nil {
+				continue
+			}
+			for i := range p.rows {
+				a, b := p.rows[i], q.rows[i]
+				isNew := tt.And(b.present, tt.Or(tt.Not(a.present), tt.Not(tt.Eq(p.c(a, "sort_id").v, q.c(b, "sort_id").v))))
+				cs = append(cs, tt.Implies(isNew, tt.SLe(since, q.c(b, "created_on").v)))
+			}
+		}
+		out = append(out, namedTerm{"G5:new-rows-created-later", tt.And(cs...)})
+	}
 	if p := pre.tabs["promises"]; p != nil {
 		q := post.tabs["promises"]
 		var cs []*Term
